@@ -42,21 +42,26 @@ func (l *lagSource) WantSave() {
 }
 func (l *lagSource) Progress() float64               { return 0 }
 func (l *lagSource) Features() savior.SourceFeatures { return l.inner.Features() }
-func (l *lagSource) maybeEmit() {
-	if !l.want {
-		return
-	}
-	if l.delay > 0 {
-		l.delay--
-		return
-	}
-	l.want = false
-	if l.ssc != nil {
-		l.ssc.Save(&savior.SourceCheckpoint{Offset: l.inner.Tell()})
-	}
-}
+// Read: when the pending checkpoint is due, the source (like the real gzip/brotli
+// sources at a block boundary) returns early with k bytes - possibly none - and a
+// nil error, having emitted the checkpoint at the offset it reached.
 func (l *lagSource) Read(p []byte) (int, error) {
-	l.maybeEmit()
+	if l.want {
+		if l.delay > 0 {
+			l.delay--
+		} else {
+			l.want = false
+			n := 0
+			var err error
+			if len(p) > 0 && rt.Choice("bytes-before-checkpoint", 2) == 1 {
+				n, err = l.inner.Read(p[:1])
+			}
+			if l.ssc != nil {
+				l.ssc.Save(&savior.SourceCheckpoint{Offset: l.inner.Tell()})
+			}
+			return n, err
+		}
+	}
 	if l.short && len(p) > 1 {
 		switch rt.Choice("short-read", 3) {
 		case 0:
@@ -67,9 +72,20 @@ func (l *lagSource) Read(p []byte) (int, error) {
 	}
 	return l.inner.Read(p)
 }
+
+// ReadByte retries after an empty read, as the real sources do.
 func (l *lagSource) ReadByte() (byte, error) {
-	l.maybeEmit()
-	return l.inner.ReadByte()
+	var b [1]byte
+	for i := 0; i < 4; i++ {
+		n, err := l.Read(b[:])
+		if n == 1 {
+			return b[0], nil
+		}
+		if err != nil {
+			return 0, err
+		}
+	}
+	return 0, io.ErrNoProgress
 }
 
 func newSource(data []byte, lag int, short bool) savior.Source {
